@@ -488,6 +488,9 @@ func parsePayload(l int64, c []byte, pageSize int, maxInPagePayload int) (cellPa
 	}
 
 	if int64(inPageBytes) == l {
+		if int64(len(c)) < l {
+			return cellPayload{}, ErrCorrupted
+		}
 		return cellPayload{l, c, 0}, nil
 	}
 
